@@ -189,6 +189,14 @@ class BLEUScoreE(Entry):
                 m = rng.choice(["near_c", "near_r", "indep", "same", "empty"])
                 refs.append(mutate(rng, cand, v) if m == "near_c" else mutate(rng, ref0, v) if m == "near_r"
                             else gen_sentence(rng, v) if m == "indep" else list(cand) if m == "same" else [])
+            if rng.random() < 0.25 and len(cand) >= 1:
+                # two references equally close to the candidate length (shorter one must win), either order
+                d = rng.randint(1, len(cand))
+                lo_ref = [rng.randrange(v) for _ in range(len(cand) - d)]
+                hi_ref = mutate(rng, cand, v)[:len(cand)] + [rng.randrange(v) for _ in range(len(cand) + d)]
+                hi_ref = hi_ref[:len(cand) + d]
+                pair = [lo_ref, hi_ref] if rng.random() < 0.5 else [hi_ref, lo_ref]
+                refs = (pair + refs[:1]) if rng.random() < 0.5 else pair
             c.append(cand)
             r.append(refs)
         return {"c": c, "r": r, "seed": rng.randrange(10 ** 6),
